@@ -64,7 +64,7 @@ class Check:
         raise NotImplementedError
 
     def budget(self):
-        return 300 if self.tier == "quick" else 3000
+        return 1200 if self.tier == "quick" else 12000
 
     def search_budget(self):
         return 3000 if self.tier == "quick" else 20000
